@@ -592,33 +592,75 @@ theorem har_bundle_read_back (url : Bundle.BUrlFacts) (parseOk : Bytes → Bool)
   obtain ⟨b', h1, h2, h3, h4, h5, σ, hσ, hl, hu, hi⟩ := C03.read_write url parseOk _ bytes hdom hw hlen
   exact ⟨b', h1, h2, h3, h4, h5, σ, hσ, hl, hu, hi⟩
 
-/-- **the tool as a whole.** When `gen-bundle -har` exits 0 having written `bytes`: `fromHar` succeeded with some exchange list, `bytes`
-    is what `WriteTo` produced for the bundle assembled from it (so `har_bundle_read_back` applies), and — unless `-ignoreErrors` was
-    given — a primary URL names one of the exchanges (`Validate`), so b1's fallback URL is always a resource of the bundle. -/
-theorem har_validated_primary (ver : Bundle.BVer) (primary manifest : Option Bytes) (ig : Bool) (entries : List Entry) (bytes : Bytes)
-    (h : genBundle ver primary manifest ig entries = .wrote bytes) :
-    ∃ out, fromHar entries = some out ∧ Bundle.write (bundleOfHar ver primary manifest out) = .ok (.ok bytes) ∧
+/-! ## -headerOverride -/
+
+theorem hw_values_hset (h : Headers) (n v : Bytes) : Http.values (hset h (canonicalKey n) v) n = [v] := by
+  unfold Http.values
+  induction h with
+  | nil => simp [hset]
+  | cons p h ih =>
+    unfold hset
+    by_cases hp : p.1 = canonicalKey n
+    · simp [hp]
+    · have : (p.1 == canonicalKey n) = false := by simpa using hp
+      simp only [hp, if_false, List.find?_cons, this]
+      exact ih
+
+/-- **`-headerOverride 'Name: value'`** ("set additional response header, replacing any existing values"): afterwards every
+    exchange answers `[TrimSpace value]` for `Name` (in any letter case of the flag), and URL, status and body are untouched. -/
+theorem har_override_replaces (es es' : List Bundle.Exch) (h n v : Bytes) (hs : splitColon h = (n, some v))
+    (ha : applyOverride es h = some es') :
+    es'.length = es.length ∧ ∀ i (hi : i < es'.length) (hi' : i < es.length),
+      Http.values es'[i].resp.headers n = [trimSpace v] ∧ es'[i].url = es[i].url ∧
+      es'[i].resp.status = es[i].resp.status ∧ es'[i].resp.body = es[i].resp.body := by
+  unfold applyOverride at ha
+  simp only [hs, Option.some.injEq] at ha
+  subst ha
+  refine ⟨by simp, ?_⟩
+  intro i hi hi'
+  simp only [List.getElem_map]
+  exact ⟨hw_values_hset _ n _, by simp⟩
+
+/-- a `-headerOverride` value without a colon makes the tool panic (index out of range) as soon as there is one exchange;
+    with no exchanges it is silently ignored — observation O17, not a violation of C20 (nothing is emitted) -/
+theorem har_override_no_colon (es : List Bundle.Exch) (h n : Bytes) (hs : splitColon h = (n, none)) :
+    applyOverride es h = if es.isEmpty then some es else none := by
+  unfold applyOverride
+  simp only [hs]
+
+/-- **the tool as a whole.** When `gen-bundle -har` exits 0 having written `bytes`: `fromHar` succeeded with some exchange list, the
+    overrides were applied, `bytes` is what `WriteTo` produced for the bundle assembled from the result, and — unless `-ignoreErrors` was
+    given — a primary URL names one of the exchanges (`Validate`), so b1's fallback URL is always a resource of the bundle. Without
+    overrides the exchange list is `fromHar`'s and `har_bundle_read_back` applies. -/
+theorem har_validated_primary (ver : Bundle.BVer) (primary manifest : Option Bytes) (ig : Bool) (ovs : List Bytes) (entries : List Entry) (bytes : Bytes)
+    (h : genBundle ver primary manifest ig ovs entries = .wrote bytes) :
+    ∃ out0 out, fromHar entries = some out0 ∧ applyOverrides ovs out0 = some out ∧
+      Bundle.write (bundleOfHar ver primary manifest out) = .ok (.ok bytes) ∧
       (ig = false → ∀ u, primary = some u → ∃ x ∈ out, x.url = u) := by
   unfold genBundle at h
   cases hf : fromHar entries with
   | none => simp [hf] at h
-  | some out =>
+  | some out0 =>
     simp only [hf] at h
-    refine ⟨out, rfl, ?_, ?_⟩
-    · split at h
-      · cases h
-      · unfold bundleOfHar
-        split at h <;> first | (injection h with h; subst h; assumption) | cases h
-    · intro hig u hu
-      subst hig
-      split at h
-      · cases h
-      · rename_i hv
-        simp only [Bool.not_false, Bool.true_and, Bool.not_eq_true', Bool.not_eq_false] at hv
-        unfold validate at hv
-        simp only [hu] at hv
-        obtain ⟨x, hx, hxu⟩ := List.any_eq_true.mp hv
-        exact ⟨x, hx, by simpa using hxu⟩
+    cases ho : applyOverrides ovs out0 with
+    | none => simp [ho] at h
+    | some out =>
+      simp only [ho] at h
+      refine ⟨out0, out, rfl, ho, ?_, ?_⟩
+      · split at h
+        · cases h
+        · unfold bundleOfHar
+          split at h <;> first | (injection h with h; subst h; assumption) | cases h
+      · intro hig u hu
+        subst hig
+        split at h
+        · cases h
+        · rename_i hv
+          simp only [Bool.not_false, Bool.true_and, Bool.not_eq_true', Bool.not_eq_false] at hv
+          unfold validate at hv
+          simp only [hu] at hv
+          obtain ⟨x, hx, hxu⟩ := List.any_eq_true.mp hv
+          exact ⟨x, hx, by simpa using hxu⟩
 
 end WebPkg.C20Har
 
